@@ -15,7 +15,21 @@ package cache
 //	        question) with outcome answer | SERVFAIL | request-local failure |
 //	        no write
 //	cancel  cancel the context of a waiting follower (lowest / highest index)
-//	expire  the request deadline of a waiting follower passes
+//	expire  the request deadline of a waiting follower has passed AND its
+//	        context has published that (Done() closed, Err() = DeadlineExceeded)
+//	dl      the deadline INSTANT of a waiting follower (lowest / highest index)
+//	        or of a stub-parked leader passes: Deadline() is now in the past,
+//	        Err() is still nil and Done() still open (the context's timer
+//	        goroutine has not run yet — the window internal/contextutil's
+//	        EffectiveError exists for). A later cancel / expire of the same
+//	        client is the separate event "Done() closes".
+//	late    an identical client arrives with its deadline instant already
+//	        passed and nothing published (queue wait ate the budget)
+//
+// dl / late exist on the message-born route only: a wire-born request is
+// detached onto a LazyDeadline that copies the deadline as a scalar at
+// arrival, so the harness context's instant is not what the cache reads.
+// VERIF_C11_DEDUP_DL=0 switches the two events off.
 //
 // Quiescence after each event is exact and uses no sleeps: a consistent
 // all-goroutine snapshot (runtime.Stack stops the world) must show every
@@ -34,11 +48,13 @@ import (
 	"encoding/json"
 	"fmt"
 	"net"
+	"os"
 	"runtime"
 	"sort"
 	"strconv"
 	"strings"
 	"sync"
+	"sync/atomic"
 	"testing"
 	"time"
 
@@ -49,16 +65,23 @@ import (
 )
 
 type vkDEv struct {
-	Kind string `json:"k"`           // new other rel cancel expire
+	Kind string `json:"k"`           // new other rel cancel expire dl late
 	Q    int    `json:"q,omitempty"` // rel: 0 same question, 1 other
 	Hi   bool   `json:"hi,omitempty"`
 	Out  string `json:"o,omitempty"` // rel: ans fail local nowrite
+	Who  string `json:"w,omitempty"` // dl: f (waiting follower) | s (stub-parked leader of the same question)
 }
 
 func (e vkDEv) String() string {
 	s := e.Kind
 	if e.Kind == "rel" {
 		s += fmt.Sprintf("(q%d,%s", e.Q, e.Out)
+		if e.Hi {
+			s += ",hi"
+		}
+		s += ")"
+	} else if e.Kind == "dl" {
+		s += "(" + e.Who
 		if e.Hi {
 			s += ",hi"
 		}
@@ -84,7 +107,9 @@ type vkDTransport struct {
 	addr    *net.UDPAddr
 }
 
-func (t *vkDTransport) LocalAddr() net.Addr  { return &net.UDPAddr{IP: net.IPv4(127, 0, 0, 1), Port: 53} }
+func (t *vkDTransport) LocalAddr() net.Addr {
+	return &net.UDPAddr{IP: net.IPv4(127, 0, 0, 1), Port: 53}
+}
 func (t *vkDTransport) RemoteAddr() net.Addr { return t.addr }
 func (t *vkDTransport) Close() error         { return nil }
 func (t *vkDTransport) Proto() string        { return "udp" }
@@ -108,11 +133,25 @@ func (t *vkDTransport) Write(b []byte) (int, error) {
 
 // ---- context whose error the harness controls
 
+//
+// Two instants are separate, as in a real deadline context: the deadline
+// instant passing (Deadline() is in the past by the wall clock) and the
+// context publishing it (Done() closed, Err() non-nil). Deadline() starts one
+// hour ahead; pass() moves it behind the clock — for code that compares
+// Deadline() with time.Now() on every look (contextutil.EffectiveError; the
+// message-born route never copies the deadline) that is the clock reaching it.
+
 type vkDCtx struct {
 	context.Context
 	cancel  context.CancelFunc
-	expired bool // written before cancel(), read after Done() is closed
+	expired bool         // written before cancel(), read after Done() is closed
+	dlNano  atomic.Int64 // the deadline instant (unix ns)
 }
+
+func (c *vkDCtx) Deadline() (time.Time, bool) { return time.Unix(0, c.dlNano.Load()), true }
+
+// pass: the deadline instant is now behind the clock; nothing is published.
+func (c *vkDCtx) pass() { c.dlNano.Store(time.Now().Add(-time.Millisecond).UnixNano()) }
 
 func (c *vkDCtx) Err() error {
 	if err := c.Context.Err(); err != nil {
@@ -204,8 +243,12 @@ type vkDClient struct {
 	arrived  int    // event index of arrival
 	stubOut  string // outcome its own stub invocation was released with ("" = never in stub)
 	canceled bool
-	expired  bool
-	failSeen int // same-question releases without a usable result since arrival
+	expired  bool // Err() = DeadlineExceeded published (implies dl)
+	dl       bool // deadline instant passed (possibly nothing published yet)
+	dlInStub bool // ... while it was parked downstream as leader
+	// the instant passed only as part of an expire event (not a dl / late event)
+	expiredByExpire bool
+	failSeen        int // same-question releases without a usable result since arrival
 }
 
 type vkDWorld struct {
@@ -214,8 +257,8 @@ type vkDWorld struct {
 	stub     *vkDStub
 	hs       []middleware.Handler
 	clients  []*vkDClient
-	failRel  [2]int  // releases with outcome "fail" per question
-	leader   [2]int  // client index the model believes holds the generation of question q, -1 none
+	failRel  [2]int // releases with outcome "fail" per question
+	leader   [2]int // client index the model believes holds the generation of question q, -1 none
 	log      []string
 	stubSeen int
 }
@@ -252,7 +295,7 @@ func vkDGoid() int {
 	return id
 }
 
-func (w *vkDWorld) spawn(other bool, evIdx int) *vkDClient {
+func (w *vkDWorld) spawn(other bool, evIdx int, late ...bool) *vkDClient {
 	idx := len(w.clients)
 	qi := 0
 	if other {
@@ -262,6 +305,11 @@ func (w *vkDWorld) spawn(other bool, evIdx int) *vkDClient {
 	cl := &vkDClient{idx: idx, q: vkDQs[qi], other: other, done: make(chan struct{}), arrived: evIdx,
 		tr:  &vkDTransport{addr: &net.UDPAddr{IP: net.IPv4(198, 51, 100, byte(10+idx)), Port: 40000 + idx}},
 		ctx: &vkDCtx{Context: base, cancel: cancel}, role: "run"}
+	cl.ctx.dlNano.Store(time.Now().Add(time.Hour).UnixNano())
+	if len(late) > 0 && late[0] {
+		cl.dl = true
+		cl.ctx.pass()
+	}
 	w.clients = append(w.clients, cl)
 	gidc := make(chan int, 1)
 	go func() {
@@ -417,6 +465,24 @@ func (w *vkDWorld) byRole(role string, other bool) []*vkDClient {
 	return out
 }
 
+// vkDLive: the clients whose deadline instant has not passed yet.
+func vkDLive(l []*vkDClient) []*vkDClient {
+	var out []*vkDClient
+	for _, cl := range l {
+		if !cl.dl {
+			out = append(out, cl)
+		}
+	}
+	return out
+}
+
+// the dl / late events: on unless VERIF_C11_DEDUP_DL=0; at most vkDDLMax of
+// them per sequence (set by the tier)
+var (
+	vkDDLOn  = os.Getenv("VERIF_C11_DEDUP_DL") != "0"
+	vkDDLMax = 1 // quick; thorough 3; VERIF_C11_DEDUP_DLMAX overrides
+)
+
 func vkDPick(l []*vkDClient, hi bool) *vkDClient {
 	if len(l) == 0 {
 		return nil
@@ -441,6 +507,19 @@ func (w *vkDWorld) enabled(maxSame int) []vkDEv {
 	if same < maxSame {
 		evs = append(evs, vkDEv{Kind: "new"})
 	}
+	dlOn := vkDDLOn && w.sc.Route == "msg"
+	if dlOn {
+		used := 0
+		for _, cl := range w.clients {
+			if cl.dl && !cl.expiredByExpire {
+				used++
+			}
+		}
+		dlOn = used < vkDDLMax
+	}
+	if dlOn && same < maxSame {
+		evs = append(evs, vkDEv{Kind: "late"})
+	}
 	stubSame := w.byRole("stub", false)
 	if len(stubSame) > 0 {
 		for _, o := range []string{"ans", "fail", "local", "nowrite"} {
@@ -460,6 +539,22 @@ func (w *vkDWorld) enabled(maxSame int) []vkDEv {
 		}
 		if w.sc.Route == "msg" {
 			evs = append(evs, vkDEv{Kind: "expire"})
+			// with followers told apart by a passed instant, "Done() closes" is
+			// offered for either end
+			if vkDDLOn && len(fol) > 1 && fol[0].dl != fol[len(fol)-1].dl {
+				evs = append(evs, vkDEv{Kind: "expire", Hi: true})
+			}
+		}
+	}
+	if dlOn {
+		if live := vkDLive(fol); len(live) > 0 {
+			evs = append(evs, vkDEv{Kind: "dl", Who: "f"})
+			if len(live) > 1 {
+				evs = append(evs, vkDEv{Kind: "dl", Who: "f", Hi: true})
+			}
+		}
+		if len(vkDLive(stubSame)) > 0 {
+			evs = append(evs, vkDEv{Kind: "dl", Who: "s"})
 		}
 	}
 	if !hasOther && same > 0 {
@@ -494,9 +589,26 @@ func (w *vkDWorld) apply(ev vkDEv, evIdx int) (string, string) {
 	case "new":
 		w.spawn(false, evIdx)
 		qi = 0
+	case "late":
+		w.spawn(false, evIdx, true)
+		qi = 0
 	case "other":
 		w.spawn(true, evIdx)
 		qi = 1
+	case "dl":
+		var cl *vkDClient
+		if ev.Who == "s" {
+			cl = vkDPick(vkDLive(w.byRole("stub", false)), false)
+		} else {
+			cl = vkDPick(vkDLive(w.byRole("follower", false)), ev.Hi)
+		}
+		if cl == nil {
+			return "", "event " + ev.String() + " not enabled on replay"
+		}
+		cl.dl = true
+		cl.dlInStub = ev.Who == "s"
+		cl.ctx.pass()
+		qi = 0
 	case "rel":
 		cl := vkDPick(w.byRole("stub", ev.Q == 1), ev.Hi)
 		if cl == nil {
@@ -512,10 +624,13 @@ func (w *vkDWorld) apply(ev vkDEv, evIdx int) (string, string) {
 		cl.stubOut = ev.Out
 		cl.role = "run"
 		released = cl
-		if ev.Out == "fail" {
+		// a SERVFAIL obtained after the leader's own deadline instant is that
+		// request's failure, not shared resolution state: for the cohort it is
+		// a request-local failure
+		if ev.Out == "fail" && !cl.dl {
 			w.failRel[ev.Q]++
 		}
-		if ev.Out == "local" || ev.Out == "nowrite" {
+		if ev.Out == "local" || ev.Out == "nowrite" || (ev.Out == "fail" && cl.dl) {
 			for _, o := range w.clients {
 				if o != cl && o.other == cl.other && o.role != "done" {
 					o.failSeen++
@@ -531,6 +646,11 @@ func (w *vkDWorld) apply(ev vkDEv, evIdx int) (string, string) {
 		if ev.Kind == "expire" {
 			cl.expired = true
 			cl.ctx.expired = true
+			if !cl.dl {
+				// Err() = DeadlineExceeded is only ever published after the instant
+				cl.dl, cl.expiredByExpire = true, true
+				cl.ctx.pass()
+			}
 		} else {
 			cl.canceled = true
 		}
@@ -561,7 +681,12 @@ func (w *vkDWorld) apply(ev vkDEv, evIdx int) (string, string) {
 		}
 	}
 	switch ev.Kind {
-	case "new", "other":
+	case "dl":
+		// nothing observes a deadline instant by itself: nobody runs, nobody is answered
+		if len(entered) > 0 {
+			return fmt.Sprintf("the passing of a deadline instant made clients %v enter the downstream handler", entered), ""
+		}
+	case "new", "other", "late":
 		me := len(w.clients) - 1
 		for _, c := range entered {
 			if c != me {
@@ -614,6 +739,8 @@ func (w *vkDWorld) rolesStr() string {
 		r := cl.role
 		if r == "done" {
 			r = "done:" + w.replyKind(cl)
+		} else if cl.dl {
+			r += "+dl"
 		}
 		if cl.other {
 			r = "o/" + r
@@ -661,6 +788,8 @@ func (w *vkDWorld) abstract() string {
 		r := cl.role
 		if r == "done" {
 			r += ":" + w.replyKind(cl)
+		} else if cl.dl {
+			r += "+dl"
 		}
 		if cl.other {
 			r = "o/" + r
@@ -716,6 +845,9 @@ func (w *vkDWorld) drain() (string, string) {
 			return fmt.Sprintf("client %d received %d replies [%s]", cl.idx, len(reps), hist), ""
 		case len(reps) == 0:
 			if !cl.canceled && cl.stubOut != "nowrite" {
+				if cl.dl && !cl.expired {
+					return fmt.Sprintf("client %d received no reply at all: its deadline instant had passed (Err() not yet published, Done() open, never cancelled) and it was dropped unwritten instead of being answered SERVFAIL \"Query timeout exceeded\" (downstream outcome %q) [%s]", cl.idx, cl.stubOut, hist), ""
+				}
 				return fmt.Sprintf("client %d received no reply (own context not cancelled, downstream outcome %q) [%s]", cl.idx, cl.stubOut, hist), ""
 			}
 			continue
@@ -732,7 +864,7 @@ func (w *vkDWorld) drain() (string, string) {
 			legal := false
 			switch kind {
 			case "servfail-timeout":
-				legal = cl.expired
+				legal = cl.expired || cl.dl
 			case "servfail-cached":
 				legal = w.failRel[qi] > 0
 			case "servfail-probelimit":
@@ -750,7 +882,7 @@ func (w *vkDWorld) drain() (string, string) {
 		if cl.stubOut == "ans" && kind != "answer" {
 			return fmt.Sprintf("client %d resolved its question successfully downstream but received %s [%s]", cl.idx, kind, hist), ""
 		}
-		if kind == "servfail-timeout" && !cl.expired {
+		if kind == "servfail-timeout" && !cl.expired && !cl.dl {
 			return fmt.Sprintf("client %d was told its query timed out although only another client's deadline passed [%s]", cl.idx, hist), ""
 		}
 	}
@@ -843,6 +975,13 @@ func TestVerifC11Dedup(t *testing.T) {
 	maxDepth, maxSame := 6, 3
 	if c.Thorough() {
 		maxDepth, maxSame = 8, 4
+		vkDDLMax = 3
+	}
+	if n, err := strconv.Atoi(os.Getenv("VERIF_C11_DEDUP_DLMAX")); err == nil && n > 0 {
+		vkDDLMax = n
+	}
+	if !vkDDLOn {
+		c.Note("dl / late events switched off (VERIF_C11_DEDUP_DL=0)")
 	}
 	scs := []vkDScenario{{Probe: true, Route: "msg"}, {Probe: false, Route: "msg"}, {Probe: true, Route: "wire"}, {Probe: false, Route: "wire"}}
 	subtree := 0
